@@ -56,7 +56,8 @@ def hard_check(assertions, timeout_s, want_model=False):
     import tempfile
     s = z3.Solver()
     s.add(assertions)
-    fd, path = tempfile.mkstemp(suffix=".smt2", dir=os.environ.get("VERIF_WORK") or None)
+    wd = os.environ.get("VERIF_WORK")
+    fd, path = tempfile.mkstemp(suffix=".smt2", dir=wd if wd and os.path.isdir(wd) else None)
     with os.fdopen(fd, "w") as f:
         f.write(s.to_smt2())
     prog = ("import z3,sys\ns=z3.Solver()\ns.set('timeout',%d)\ns.from_file(sys.argv[1])\nr=s.check()\nprint(r)\n"
@@ -340,6 +341,8 @@ class T1:
         self.lost_carries = []
         self.events = []
         self.nhavoc = 0
+        self.token_words = {}
+        self.drop_budget = 8                 # lin mode: after this many unprovable dropped carries the rest are listed without asking the solver
         self.nonzero_drops = set()           # concrete mode: addresses of instructions whose set carry was overwritten unread
         self.known_nonzero_drops = set()     # lin mode: such sites, found by concrete runs (diagnostic shortcut only)
 
@@ -380,6 +383,11 @@ class T1:
         self.regs[r] = v
 
     def word(self, v, what):
+        if v == "RETADDR" or (isinstance(v, tuple) and v and v[0] == "INIT"):
+            # the caller's lr / a callee-saved register's entry value used as data: an arbitrary word, the same one every time
+            if v not in self.token_words:
+                self.token_words[v] = self.havoc(("entry-value-used-as-data", str(v), self.cur.where, self.cur.text))
+            return self.token_words[v]
         if not self.is_word(v):
             raise ExecError("unsupported", "%s on a non-integer value %r at %s: %s" % (what, v, self.cur.where, self.cur.text))
         return v
@@ -394,10 +402,12 @@ class T1:
             f = self.L.resolve(self.c_zero)
             if f.is_const():
                 ok = f.c == 0
-            elif self.c_src.addr in self.known_nonzero_drops:
-                ok = False           # a concrete run has shown this carry set when it is overwritten: no point asking the solver
+            elif self.c_src.addr in self.known_nonzero_drops or self.drop_budget <= 0:
+                ok = False           # a concrete run has shown this carry set when it is overwritten (or too many carries are already lost): not asked
             else:
                 ok = self.L.prove_zero(f, "dropped carry", self.drop_timeout_ms)
+                if not ok:
+                    self.drop_budget -= 1
                 if ok:
                     self.L.eliminate(f, "carry of `%s` (%s) overwritten unread at %s: proved zero" % (self.c_src.text, self.c_src.where, self.cur.where))
             if ok:
